@@ -1,5 +1,6 @@
 /- line-protocol handlers for the Cmp / Sort models -/
 import PygModel.Native
+import PygModel.SortTable
 
 namespace Pyg.CmpDriver
 open Pyg
@@ -37,6 +38,10 @@ def handle1 (op : String) (args : List Sexp) : Option String := do
       match ← Val.ofSexp a, ← Val.ofSexp b with
       | .cell x, .cell y =>
           pure (match x.native y with | some o => s!"ok I:{ordInt o}" | Option.none => "err TypeError")
+      | .tuple [.tuple xs, .cell (.int i)], .tuple [.tuple ys, .cell (.int j)] =>
+          -- the decorated `((k0, .., kn), i)` tuples of `dictable.sort`
+          let xs ← xs.mapM cellOf; let ys ← ys.mapM cellOf
+          pure (match nativeKeyId (xs, i.toNat) (ys, j.toNat) with | some o => s!"ok I:{ordInt o}" | Option.none => "err TypeError")
       | .tuple xs, .tuple ys =>
           let xs ← xs.mapM cellOf; let ys ← ys.mapM cellOf
           pure (match nativeArr xs ys with | some o => s!"ok I:{ordInt o}" | Option.none => "err TypeError")
@@ -55,6 +60,13 @@ def handle1 (op : String) (args : List Sexp) : Option String := do
       match ← Val.ofSexp keys with
       | .list ks => pure ("ok " ++ (natList (sortIdx ks)).render)
       | _ => Option.none
+  | "sorttable", [t, by_] =>
+      -- `dictable(t).sort(*by)` on the whole table (`Table.sortBy`): all columns come back
+      let t ← Table.ofVal (← Val.ofSexp t)
+      let by_ ← match ← Val.ofSexp by_ with
+        | .list xs => xs.mapM fun x => match x with | .cell (.str s) => some s | _ => Option.none
+        | _ => Option.none
+      pure (match t.sortBy by_ with | .ok r => "ok " ++ r.toVal.render | .error e => "err " ++ e.render)
   | "sortfn", [keys, .atom fn] =>
       -- `d.sort(f)` with a key FUNCTION of the columns: the sort key of a row is the 1-tuple `(f(row),)`
       match ← Val.ofSexp keys with
